@@ -14,6 +14,11 @@
 (*                                                                         *)
 (* Impl = "asis": one Read of the source per refill (commit 76efab5).      *)
 (* Impl = "fixed": the buffer is filled until full, end or error.          *)
+(*                                                                         *)
+(* Over > 0 lets the caller ask for more bits than the source holds (a     *)
+(* truncated stream, C09; forged lengths, C03): such a request must end in *)
+(* the end-of-data panic, whatever the operation, the alignment and the    *)
+(* size of the last partial word (OverreadFails).                          *)
 (***************************************************************************)
 EXTENDS Integers, Sequences, TLC
 
@@ -23,7 +28,8 @@ CONSTANTS N,          \* bytes in the source
           BitsOps,    \* counts for ReadBits
           ArrOps,     \* bit counts for ReadArray
           ErrAt,      \* the source fails (instead of delivering data) once this many bytes were delivered; -1 = never
-          Impl
+          Over,       \* a request may exceed the source by up to this many bits (0: the caller never reads beyond the data)
+          Impl        \* "asis" | "fixed" | "nocheck" (self-test: ReadBits trusts the word returned by pull)
 
 X == -1
 ZeroW == [i \in 1..64 |-> 0]
@@ -42,11 +48,12 @@ VARIABLES srcPos,   \* next source byte to deliver (1-based)
           consumed, \* the field `read`: bits of the buffers that were replaced
           pend,     \* pendingErr: "none" | "eof" | "err"
           outBits,  \* every bit handed to the caller, in order
-          status    \* "ok" | "eof" (panic: no more data) | "err" (panic: source error)
-vars == <<srcPos, buf, pos, cur, avail, consumed, pend, outBits, status>>
+          status,   \* "ok" | "eof" (panic: no more data) | "err" (panic: source error)
+          asked     \* bits requested so far, including the operation that failed
+vars == <<srcPos, buf, pos, cur, avail, consumed, pend, outBits, status, asked>>
 
 Init == /\ srcPos = 1 /\ buf = <<>> /\ pos = 0 /\ cur = ZeroW /\ avail = 0 /\ consumed = 0 /\ pend = "none"
-        /\ outBits = <<>> /\ status = "ok"
+        /\ outBits = <<>> /\ status = "ok" /\ asked = 0
 
 S0 == [sp |-> srcPos, b |-> buf, p |-> pos, w |-> cur, a |-> avail, rd |-> consumed, pe |-> pend, st |-> "ok"]
 MaxPos(b) == Len(b) - 1
@@ -102,6 +109,10 @@ RB(s, count, c, guard) ==
     ELSE LET head == Take(s.w, s.a, s.a)
              pl == Pull([s EXCEPT !.a = 0], c)
          IN IF pl.st # "ok" THEN <<pl, head>>
+            ELSE IF Impl = "nocheck" /\ pl.a < count - s.a THEN
+                 \* (self-test) availBits -= count without looking at what pull returned: the counter wraps and the
+                 \* stream keeps serving phantom zero bits
+                 <<[pl EXCEPT !.a = 64], head \o [k \in 1..(count - s.a) |-> 0]>>
             ELSE LET rest == RB(pl, count - s.a, c, guard - 1) IN <<rest[1], head \o rest[2]>>
 
 (***************************************************************************)
@@ -184,7 +195,8 @@ Apply(r) ==
     /\ status' = s.st
     /\ outBits' = IF s.st = "ok" THEN outBits \o r[2] ELSE outBits
 
-Budget(k) == Len(outBits) + k <= 8 * N
+Budget(k) == /\ Len(outBits) + k <= 8 * N + Over
+             /\ asked' = asked + k
 
 ReadBitsOp(k, c) == status = "ok" /\ Budget(k) /\ Apply(RB(S0, k, c, 4))
 \* ReadBit()  (l.66-73)
@@ -207,10 +219,12 @@ Spec == Init /\ [][Next]_vars
 (***************************************************************************)
 \* C06/C14: what the caller received is exactly the next bits of the source, in order, whatever the chunking
 InOrder == \A i \in 1..Len(outBits) : outBits[i] = i
+\* C09/C03: a request that goes beyond what the source can deliver never returns
+OverreadFails == asked > 8 * Limit => status # "ok"
 \* C06: "no more data" only when the request really goes beyond what the source can deliver.
 \* (requests are limited to N bytes by Budget: when the source delivers all its N bytes it must never happen; when the
 \*  source fails early, running out of bits is the expected outcome and the panic message may be either one)
-NoSpuriousEOF == status = "eof" => Limit < N
+NoSpuriousEOF == status = "eof" => (Limit < N \/ asked > 8 * N)
 \* C08: a source error is reported as such, and only when the requested bits are not all available
 ErrOnlyWhenNeeded == status = "err" => (ErrAt >= 0 /\ ErrAt < N)
 \* C14: Read() counts the bits delivered
